@@ -6,6 +6,7 @@ everything under /verif/seeded/<seed-id>/ (patch.diff, demo.py, notes.md, meta.j
 import json, os, shutil, subprocess, sys, tempfile
 
 sid, prop, patch, demo, notes = sys.argv[1:6]
+patch, demo, notes = (os.path.abspath(x) for x in (patch, demo, notes))
 checks = [prop]
 if "--checks" in sys.argv:
     checks = sys.argv[sys.argv.index("--checks") + 1].split(",")
@@ -47,9 +48,10 @@ print(json.dumps(meta, indent=1))
 if ok:
     d = f"/verif/seeded/{sid}"
     os.makedirs(d, exist_ok=True)
-    shutil.copy(patch, f"{d}/patch.diff"); shutil.copy(demo, f"{d}/demo.py")
+    for src, dst in ((patch, f"{d}/patch.diff"), (demo, f"{d}/demo.py"), (notes, f"{d}/notes.md")):
+        if os.path.exists(src) and os.path.abspath(src) != os.path.abspath(dst):
+            shutil.copy(src, dst)
     if os.path.exists(notes):
-        shutil.copy(notes, f"{d}/notes.md")
         meta["needs_to_manifest"] = open(notes).read()[:1500]
     json.dump(meta, open(f"{d}/meta.json", "w"), indent=1)
     print("KEPT", d)
